@@ -2,7 +2,7 @@
 //! controller schedules, several configurations) against the in-order stock-revm oracle.
 
 use crate::{
-    Args,
+    Args, lean,
     ctrl::{Rng, Strategy},
     blocks,
     json::J,
@@ -606,6 +606,139 @@ pub fn cmd_witness(args: &Args) -> J {
         ("distinct_nontrivial", J::n(ran)),
         ("conforming", J::n(ran - divergences.len())),
         ("divergences", J::Arr(divergences)),
+        ("samples", J::Arr(samples)),
+    ])
+}
+
+
+/// `sched-conf`: trace conformance of real executions against the proven pipeline model.
+pub fn cmd_sched_conf(args: &Args) -> J {
+    let seed = args.num("seed", 1);
+    let cases = args.num("cases", 40);
+    let schedules = args.num("schedules", 3);
+    let max_txs = args.num("max-txs", 7) as usize;
+    let gmodel = args.str("gmodel", "/verif/lean/.lake/build/bin/gmodel");
+    let names = ["random", "pct", "sticky"];
+    let mut session = String::new();
+    let mut metas = Vec::new();
+    let mut stalls = Vec::new();
+    let mut oracle_div = Vec::new();
+    let mut site_hist: BTreeMap<&'static str, u64> = BTreeMap::new();
+    let mut samples = Vec::new();
+    for case in 0..cases {
+        let n_txs = 2 + case_rng(seed ^ 31, "conf", case).below(max_txs - 1);
+        let cs = CaseSpec { family: "conf".to_owned(), case, n_txs };
+        let block = make_block(seed, &cs);
+        let expected = world::oracle(&block);
+        let mut sched_rng = case_rng(seed ^ 0xC0F, "conf", case);
+        for k in 0..schedules {
+            let workers = 2 + ((case + k) % 2) as usize;
+            let name = names[((case + k) % 3) as usize];
+            let sseed = sched_rng.next();
+            let strategy = strategy_of(name, &mut Rng::new(sseed));
+            let run = world::run_grevm(&block, &RunCfg::parallel(workers), Some((strategy, sseed)));
+            let report = match run.report {
+                Some(r) => r,
+                None => continue,
+            };
+            if let Some(st) = &report.stall {
+                stalls.push(format!("case {case} schedule {name}/{sseed}: {st}"));
+                continue;
+            }
+            if let Some(diff) = world::compare_runs(&expected, &run.result) {
+                if oracle_div.len() < 4 {
+                    oracle_div.push(J::obj(vec![
+                        ("kind", J::s("oracle")),
+                        ("detail", J::s(format!("conformance run differs from in-order revm: {diff}"))),
+                        ("case", J::n(case as usize)),
+                        ("schedule", J::s(format!("{name}/{sseed}"))),
+                        ("block", block_json(&block)),
+                    ]));
+                }
+            }
+            for e in &report.trace {
+                *site_hist.entry(e.site).or_default() += 1;
+            }
+            let lines = crate::kernels::trace_lines(&report);
+            session.push_str(&format!("sched {}\n", block.txs.len()));
+            for l in &lines {
+                session.push_str(l);
+                session.push('\n');
+            }
+            session.push_str("end\n");
+            if samples.len() < 2 {
+                samples.push(J::obj(vec![
+                    ("case", J::n(case as usize)),
+                    ("workers", J::n(workers)),
+                    ("schedule", J::s(format!("{name}/{sseed}"))),
+                    ("events", J::n(lines.len())),
+                    ("block", block_json(&block)),
+                    ("first_events", J::Arr(lines.iter().filter(|l| !l.contains("spin") && !l.contains("frontier") && !l.contains("dep_") && !l.contains("vcur")).take(25).map(|l| J::s(l.clone())).collect())),
+                ]));
+            }
+            metas.push((case, workers, format!("{name}/{sseed}"), lines, report.choices, block_json(&block)));
+        }
+    }
+    let mut divergences = Vec::new();
+    let mut ok = 0usize;
+    let mut skipped = 0usize;
+    let mut complete = 0usize;
+    let mut model_steps = 0usize;
+    match lean::run_gmodel(&gmodel, &session) {
+        Err(e) => divergences.push(J::obj(vec![("detail", J::s(e))])),
+        Ok(results) => {
+            if results.len() != metas.len() {
+                divergences.push(J::obj(vec![("detail", J::s(format!("gmodel answered {} of {} sessions", results.len(), metas.len())))]));
+            }
+            for (res, meta) in results.iter().zip(metas.iter()) {
+                if res.starts_with("ok ") {
+                    ok += 1;
+                    let mut it = res.split(' ');
+                    it.next();
+                    model_steps += it.next().and_then(|x| x.parse::<usize>().ok()).unwrap_or(0);
+                    if res.ends_with("complete") {
+                        complete += 1;
+                    }
+                } else if res.starts_with("skip") {
+                    skipped += 1;
+                } else if divergences.len() < 4 {
+                    let at: usize = res.split(' ').nth(1).and_then(|x| x.parse().ok()).unwrap_or(0);
+                    let evs: Vec<&String> = meta.3.iter().filter(|l| l.starts_with("ev ")).collect();
+                    let lo = at.saturating_sub(40);
+                    divergences.push(J::obj(vec![
+                        ("kind", J::s("correspondence")),
+                        ("detail", J::s(format!("implementation trace is not an execution of the pipeline model: {res}"))),
+                        ("model_says", J::s(res.clone())),
+                        ("case", J::n(meta.0 as usize)),
+                        ("workers", J::n(meta.1)),
+                        ("schedule", J::s(meta.2.clone())),
+                        ("choices", J::Arr(meta.4.iter().take(4000).map(|c| J::n(*c)).collect())),
+                        ("events_before_divergence", J::Arr(evs.iter().skip(lo).take(at + 1 - lo).map(|l| J::s((*l).clone())).collect())),
+                        ("block", meta.5.clone()),
+                    ]));
+                } else {
+                    divergences.push(J::Null);
+                }
+            }
+        }
+    }
+    let n_div = divergences.len();
+    let mut all_div: Vec<J> = divergences.into_iter().filter(|d| !matches!(d, J::Null)).collect();
+    all_div.extend(oracle_div);
+    let distinct: std::collections::BTreeSet<_> = metas.iter().map(|m| m.3.join("|")).collect();
+    J::obj(vec![
+        ("check", J::s("sched-conformance (real scheduler trace replayed through the proven Sched.step)")),
+        ("seed", J::n(seed as usize)),
+        ("cases", J::n(metas.len())),
+        ("conforming", J::n(ok)),
+        ("complete_runs", J::n(complete)),
+        ("skipped_beneficiary_read", J::n(skipped)),
+        ("model_steps_replayed", J::n(model_steps)),
+        ("distinct_traces", J::n(distinct.len())),
+        ("n_divergences", J::n(n_div)),
+        ("divergences", J::Arr(all_div)),
+        ("stalls", J::Arr(stalls.into_iter().map(J::Str).collect())),
+        ("site_histogram", J::Obj(site_hist.into_iter().map(|(k, v)| (k.to_owned(), J::n(v as usize))).collect())),
         ("samples", J::Arr(samples)),
     ])
 }
